@@ -43,7 +43,17 @@ def _cancel_loop_hook(ex: paths.Explorer, n, st):
             if any(x is call for x in ast.walk(s_)):
                 if isinstance(s_, ast.If):
                     if any(x is call for x in ast.walk(s_.test)):
-                        return acc              # `if not <cancel>(t): raise ...`: the call runs whenever the test is reached
+                        # `if not <cancel>(t): raise ...`: the call runs whenever the test is reached;
+                        # `if <guard> and not <cancel>(t): raise`: it runs only when the operands before it are true
+                        t_ = s_.test
+                        if isinstance(t_, ast.BoolOp) and isinstance(t_.op, ast.And):
+                            pre = []
+                            for v in t_.values:
+                                if any(x is call for x in ast.walk(v)):
+                                    break
+                                pre.append((v, True))
+                            return acc + pre
+                        return acc
                     if any(x is call for b in s_.body for x in ast.walk(b)):
                         return find(s_.body, acc + [(s_.test, True)])
                     return find(s_.orelse, acc + [(s_.test, False)])
@@ -113,7 +123,8 @@ def _first_available_else_hook(ex: paths.Explorer, n, st):
     b = n.body[0]
     if not (isinstance(b, ast.If) and not b.orelse and isinstance(b.test, ast.Call) and isinstance(b.test.func, ast.Attribute)
             and b.test.func.attr in ('can_put', 'can_get') and isinstance(b.test.func.value, ast.Name)
-            and b.test.func.value.id == n.target.id and not b.test.args and len(b.body) == 1 and isinstance(b.body[0], ast.Break)):
+            and b.test.func.value.id == n.target.id and not b.test.args and b.body and isinstance(b.body[-1], (ast.Break, ast.Return))
+            and not any(isinstance(x_, (ast.Yield, ast.YieldFrom, ast.For, ast.While)) for s_ in b.body for x_ in ast.walk(s_))):
         return None
     x = n.target.id
     itertxt = ast.unparse(n.iter)
@@ -121,13 +132,17 @@ def _first_available_else_hook(ex: paths.Explorer, n, st):
     none = st.clone()
     val = ('first-avail', itertxt, b.test.func.attr, next(paths._uid))
     prior = st.env.get(x)
-    loopvar_else = bool(n.orelse) and isinstance(n.orelse[-1], (ast.Return, ast.Raise, ast.Continue))
+    # the decision is carried by the loop variable itself and the "nobody has room" case leaves through the else-branch, or the found case
+    # leaves through a return: no variable can survive from an earlier scan
+    loopvar_else = (bool(n.orelse) and isinstance(n.orelse[-1], (ast.Return, ast.Raise, ast.Continue))) or isinstance(b.body[-1], ast.Return)
     ex.emit(found, 'first_available', n, iter=itertxt, probe=b.test.func.attr, outcome='found', var=x, value=val, node=n, prior=prior, loopvar_else=loopvar_else)
     found.env[x] = val
     found.notnone.add(x)
     ex.emit(none, 'first_available', n, iter=itertxt, probe=b.test.func.attr, outcome='none', var=x, value=None, node=n, prior=prior, loopvar_else=loopvar_else)
     none.env[x] = paths.fresh('last-edge')
-    out = [(found, 'normal')]
+    out = []
+    for s2, status in ex.block(b.body, found):          # what happens with the edge found: `break`, or e.g. `return edge`
+        out.append((s2, 'normal' if status == 'break' else status))
     out += ex.block(n.orelse, none) if n.orelse else [(none, 'normal')]
     return out
 
